@@ -2,7 +2,7 @@
 import os, sys
 import vlib, proglib, crashlib
 
-PROP_FILES = ["Properties_C03.v"]
+PROP_FILES = ["Properties_C03_shape.v", "Properties_C03_open.v"]
 STATS_COMPARED = [0]
 
 
@@ -198,7 +198,7 @@ def run_images(ctx, nprog, per_program):
 
 
 def run(ctx):
-    prop_files = [f for f in PROP_FILES if os.path.exists(os.path.join(vlib.COQ, f))]
+    prop_files = vlib.listed_props(PROP_FILES)
     vlib.build(ctx, prop_files, variants=("plain",))
     nprog, per = (8, 320) if ctx.tier == "quick" else (40, 2500)
     cases, parsed, spec_scripts, model = run_images(ctx, nprog, per)
